@@ -158,7 +158,7 @@ def parseBigInt (c : Bytes) : Option Int :=
     else some ((os2ip (x :: y :: rest) : Nat) : Int)
 
 /-- `CipherUnmarshal`: `none` = error.  Bytes after the SEQUENCE and after its fourth element are
-    ignored (as `asn1.Unmarshal` does); `.Bytes()` is the magnitude. -/
+    ignored (as `asn1.Unmarshal` does); `.Bytes()` is the magnitude (negative and over-long coordinates are refused). -/
 def cipherUnmarshal (data : Bytes) : Option Bytes :=
   match parseField 0x30 data with
   | none => none
@@ -181,6 +181,9 @@ def cipherUnmarshal (data : Bytes) : Option Bytes :=
               match parseField 0x04 r3 with
               | none => none
               | some (cipherText, _) =>
-                some (0x04 :: (leftPad32 (natBytes x.natAbs) ++ leftPad32 (natBytes y.natAbs) ++ hash ++ cipherText))
+                -- as repaired: C1 is given as two field elements (no negative, no over-long INTEGER) and C3 has the
+                -- size of an SM3 digest; anything else would be re-split into another C1 | C3 | C2
+                if x < 0 ∨ y < 0 ∨ (natBytes x.natAbs).length > 32 ∨ (natBytes y.natAbs).length > 32 ∨ hash.length ≠ 32 then none
+                else some (0x04 :: (leftPad32 (natBytes x.natAbs) ++ leftPad32 (natBytes y.natAbs) ++ hash ++ cipherText))
 
 end Model.SM2Codec
